@@ -10,4 +10,6 @@ MUTANTS = [
          old='        for code in ["200", "201", "202", "204"]:\n            for response in operation.responses:\n                if response.status_code == code:\n                    return response\n',
          new='        for response in operation.responses:\n            if response.status_code in ["200", "201", "202", "204"]:\n                return response\n'),
     dict(name="yaml-full-load", file="core/spec_fetcher.py", expect="R19.4", old="yaml.safe_load(", new="yaml.full_load("),
+    dict(name="items-recursion-drops-self-reference-flag", file="core/parsing/schema_parser.py", expect="R19.5",
+         old="                item_schema_context_name_for_reparse, raw_items_node, context, max_depth_override, allow_self_reference\n", new="                item_schema_context_name_for_reparse, raw_items_node, context, max_depth_override\n"),
 ]
